@@ -136,6 +136,8 @@ def pieces(v, fn, hooks=None, args=None):
         elif e in ("while", "unknown"):
             out.append({"kind": e, "loops": loops, "guards": guards, "eff": x, "line": x["l"], "stack": stack, "pre": pre})
         elif e == "return":
+            if stack:
+                continue        # the return of an inlined callee is a value flow (its value is the call's value), not an exit
             out.append({"kind": "return", "loops": loops, "guards": guards, "val": x.get("val"), "line": x["l"], "stack": stack, "pre": pre})
         elif e == "local":
             out.append({"kind": "local", "loops": loops, "guards": guards, "eff": x, "line": x["l"], "stack": stack, "pre": pre,
@@ -316,4 +318,70 @@ def forward_stored_calls(ps):
                 r["args"] = [sym.subst(a, {V: p["lv"]}) if a is not None and isinstance(a, tuple) else a for a in q["args"]]
             if r is not None:
                 out[j] = r
+    return out
+
+
+# ---------------------------------------------------------------- hand-inlined library functions
+def closed_return(v, name):
+    """(parameter symbols, return term) of a library function whose body folds to one closed return expression"""
+    f = v.fn(name, required=False)
+    if f is None:
+        return None
+    ps, _ = pieces(v, f, hooks=LOCAL_HELPERS)
+    rets = [p for p in ps if p["kind"] == "return"]
+    if len(rets) != 1 or rets[0]["loops"] or rets[0]["guards"] or any(p["kind"] in ("asm", "while", "unknown", "store", "call") for p in ps):
+        return None
+    return [sym.sym(p["n"]) for p in f.params], rets[0]["val"]
+
+
+def _consts(t):
+    return {st[1] for st in sym.subterms(t) if st[0] == "int" and abs(st[1]) > 4} | \
+        {c for st in sym.subterms(t) if st[0] == "poly" for _, c in st[1] if abs(c) > 4}
+
+
+def fold_inline_calls(v, ps, names):
+    """Rewrite, in the terms of the pieces, every expression that is an instance of the closed return term of one of the
+    named library functions (a call the programmer expanded by hand, with loop-invariant parts hoisted) back into the
+    call term name(args).  An instance is found by substituting candidate sub-terms for the parameters and comparing
+    normal forms, so the rewrite is exact: the expression IS the function's body on those arguments."""
+    out = list(ps)
+    for name in names:
+        cr = closed_return(v, name)
+        if cr is None:
+            continue
+        params, pat = cr
+        need = _consts(pat)
+        mapping = {}
+
+        def visit(t):
+            if t is None or not isinstance(t, tuple):
+                return
+            for st in sym.subterms(t):
+                if st in mapping or st[0] != pat[0] or (pat[0] == "op" and st[1] != pat[1]):
+                    continue
+                if not need <= _consts(st):
+                    continue
+                cands = [c for c in dict.fromkeys(sym.subterms(st)) if c[0] in ("sym", "idx", "fld", "poly", "var", "call") and c != st][:40]
+                import itertools
+                for combo in itertools.product(cands, repeat=len(params)):
+                    if sym.subst(pat, dict(zip(params, combo))) == st:
+                        mapping[st] = ("call", name, tuple(combo))
+                        break
+        for p in out:
+            for fld_ in ("val", "lv"):
+                visit(p.get(fld_))
+            for a in p.get("args") or []:
+                visit(a)
+        if not mapping:
+            continue
+        new = []
+        for p in out:
+            r = dict(p)
+            for fld_ in ("val", "lv"):
+                if isinstance(r.get(fld_), tuple):
+                    r[fld_] = sym.rewrite(r[fld_], mapping)
+            if r.get("args"):
+                r["args"] = [sym.rewrite(a, mapping) if isinstance(a, tuple) else a for a in r["args"]]
+            new.append(r)
+        out = new
     return out
